@@ -53,6 +53,8 @@ class ScriptIO(ChannelIO):
         self.log = []
         self._closed = False
         self.written = bytearray()
+        self.delivered = 0
+        self.chunks = []
 
     def write(self, buf):
         buf = bytes(buf)
@@ -72,6 +74,8 @@ class ScriptIO(ChannelIO):
         else:
             self.pend.pop(0)
         self.clock.t = max(self.clock.t, t)
+        self.delivered += len(got)
+        self.chunks.append(got)
         return got
 
     def read(self, n, timeout=None):
@@ -273,6 +277,8 @@ def run_script(case, channel_cls=Channel):
         streams = [_io.StringIO() for _ in range(3)]
         stack = []
         out = []
+        extra = []
+        xchunks = []
         for o in case["ops"]:
             sio.log = []
             marks = [len(s.getvalue()) for s in streams]
@@ -350,8 +356,11 @@ def run_script(case, channel_cls=Channel):
                 r = _exc_obs(e)
             deltas = [s.getvalue()[m:] for s, m in zip(streams, marks)]
             out.append([r, clock.t, deltas, list(sio.log)])
+            extra.append(sio.delivered)
+            xchunks.append(list(sio.chunks))
+            sio.chunks = []
         final = [sio.unread(), bytes(ch._streambuf), len(ch.death_strings), len(ch._streams), bool(ch._log_prompt)]
-        return [out, final]
+        return [out, final, extra, xchunks]
     finally:
         chmod.time = saved_time
 
@@ -391,6 +400,10 @@ class ChanSuite(Suite):
 
     def coq_input(self, case):
         return case_coq(case)
+
+    def obs_term(self, case, obs):
+        # obs[2] (bytes delivered by the transport after each op) is harness-side bookkeeping for the oracles only
+        return coq.V(obs[:2])
 
 
 def timed(pieces, gaps=None):
